@@ -8,6 +8,7 @@ Read or Write runs the implicit Handshake (iclose / idl), the state accessors at
 the handshake (access), and the key-possession judge of the fatal-alert placements (DTLS 1.3).
 Monitors = the property's statements, evaluated on the implementation trace."""
 import os
+import re
 
 import vlib
 from vlib import cN, clist, cbool
@@ -28,7 +29,10 @@ CORPUS = ["v12/simul/client/6/1/0/0", "v13/close/client/9/2/1/0",
           "v12/close/client/3/1/0/0", "v13/iclose/server/4/1/0/0", "v12/iclose/client/3/1/0/1",
           "v12/closeblk/client/8/1/0/0", "v13/closeblk/server/13/3/0/0",
           "v13/fatal/client/6/0/0/0", "dual13/fatal/server/6/0/0/0",
-          "v12/access/client/1000/0/0/0", "v12/access/server/1000/0/0/0"]
+          "v12/access/client/1000/0/0/0", "v12/access/server/1000/0/0/0",
+          # seeded change C16d: the DTLS 1.3 state machine fails on a received post-handshake message
+          # (its ACK cannot be written) and must release the read loop
+          "v13/phpeer/client/12/0/0/0", "v13/phfatal/server/13/0/0/1", "dual13/phclose/client/12/2/1/0"]
 
 SITE_CN2 = "conn.go close / processIncomingPacket (close_notify reply)"
 SIG_CN2 = {"monitor": "close_notify twice",
@@ -44,8 +48,8 @@ SITE_LIFE = "conn.go lifecycle (Close / read loop / HandshakeContext)"
 def corpus_reached(r):
     """the regression placement met the situation it is kept for"""
     ev = r["sc"]["event"]
-    if r.get("panic"):
-        return False
+    if r.get("panic") and not r.get("close2_x"):
+        return False   # (a leak panic at the bubble's exit leaves the observation intact)
     if ev == "simul":
         return r["held_reply"]
     if ev == "close":
@@ -58,6 +62,8 @@ def corpus_reached(r):
         return r["x_keys"] and r["ep_p"] >= 2 and not r["est_x"] and r["delivered"]
     if ev == "access":
         return r["acc_calls"] > 0
+    if ev in ("phpeer", "phfatal", "phclose"):
+        return bool(r.get("ph_reached"))
     return False
 
 
@@ -111,7 +117,13 @@ def monitors_e2e(o):
     p = o.get("panic", "")
     if p:
         if "blocked goroutines remain" in p:
-            out.append(("leak", "goroutines left behind at the end of the bubble: " + p[:200]))
+            out.append(("leak", "goroutines left behind at the end of the bubble: " + p[:200] +
+                        ((" - " + re.sub(r"0x[0-9a-f]+\??|goroutine \d+|bubble \d+|\+0x[0-9a-f]+", "_",
+                                         o["leak_info"])[:400]) if o.get("leak_info") else "")))
+            if o.get("close2_x"):
+                # the scenario itself ran to its end (the panic is the bubble's exit): judge it as well
+                rest = monitors_e2e(dict(o, panic="", leak=0))
+                return out + [m for m in rest if m[0] != "leak"]
         elif "deadlock" in p:
             out.append(("deadlock", "all goroutines blocked: " + p[:200]))
         else:
@@ -133,12 +145,24 @@ def monitors_e2e(o):
         out.append(("accessor-panic", "ConnectionState()/accessors called while the connection logs (between two "
                     "steps of a handshake goroutine) panicked: %s (%d such points in this run)"
                     % (p[:300], len(o["acc_panics"]))))
-    if ev in ("close", "fatal", "simul", "nohs", "closeblk", "iclose") and o.get("close2_x") not in ("ok",):
+    if ev in ("close", "fatal", "simul", "nohs", "closeblk", "iclose", "phpeer", "phfatal", "phclose") and \
+            o.get("close2_x") not in ("ok",):
         out.append(("close-returns", "repeated Close() returned class %s" % o.get("close2_x")))
     if ev in ("close", "fatal", "simul", "closeblk", "iclose") and o.get("close_p") not in ("ok",):
         out.append(("close-returns", "peer Close() returned class %s" % o.get("close_p")))
-    closing = ev in ("close", "closeblk", "iclose") or (ev == "simul" and o["delivered"]) or \
-        (ev == "fatal" and o["accepted"])
+    closing = ev in ("close", "closeblk", "iclose", "phclose") or (ev == "simul" and o["delivered"]) or \
+        (ev in ("fatal", "phpeer", "phfatal") and o["accepted"])
+    # DTLS 1.3: X's state machine failed on the peer's post-handshake message (its ACK could not be written);
+    # the read loop must go on: the peer's close_notify / fatal alert is read, Read returns EOF
+    if ev in ("phpeer", "phfatal") and o.get("ph_reached") and o["delivered"] and not o["closed_x0"]:
+        what = "close_notify" if ev == "phpeer" else "fatal alert"
+        if not o["accepted"] or not o["closed_x"]:
+            out.append(("peer-eof" if ev == "phpeer" else "alert-close",
+                        "after X's state machine failed on the peer's post-handshake message the peer's %s was never "
+                        "read: the connection stayed open (blocked Read: %s)" % (what, o.get("rd_x"))))
+        elif o["rd_pend_x"] and o["rd_x"] != "eof":
+            out.append(("peer-eof" if ev == "phpeer" else "alert-close",
+                        "Read after the peer's %s returned class %s" % (what, o["rd_x"])))
     who = ("%s running the implicit Handshake" % o.get("implicit")) if ev in ("iclose", "idl") else \
         "pending HandshakeContext"
     # blocked calls unblocked with closed/EOF class errors
@@ -264,8 +288,11 @@ def model_case(o):
     rd_pend, wr_pend = o["rd_pend_x"], o["wr_pend_x"]
     close_res = [code(c) for c in (o.get("close_res") or [])]
     hs_c = code(o["hs_x"])
+    if ev in ("phpeer", "phfatal", "phclose") and not o.get("ph_reached"):
+        return None
     evn = {"close": 0, "fatal": 1, "deadline": 2, "hsctx": 3, "simul": 4, "nohs": 5,
-           "closeblk": 7 if o.get("sock_blk") else 0, "iclose": 0, "idl": 2}[ev]
+           "closeblk": 7 if o.get("sock_blk") else 0, "iclose": 0, "idl": 2,
+           "phpeer": 8, "phfatal": 9, "phclose": 11 if sc.get("wblock") else 10}[ev]
     if ev == "simul":
         if not (o["held_reply"] and est):
             return None
@@ -305,7 +332,7 @@ def model_case(o):
         clist([cN(c) for c in close_res]), cN(hs_c), cN(code(o.get("rd_x") or "")), cN(code(o.get("wr_x") or "")),
         cN(o["cn_x"]), cbool(closed_x),
         cN(code(o.get("close2_x") or "")), cN(code(o.get("wr_aft_x") or "")), cN(code(o.get("rd_aft_x") or "")))
-    nontrivial = ev in ("close", "simul", "nohs", "closeblk", "iclose") or (ev == "fatal" and o["accepted"]) or \
+    nontrivial = ev in ("close", "simul", "nohs", "closeblk", "iclose", "phpeer", "phfatal", "phclose") or (ev == "fatal" and o["accepted"]) or \
         (ev == "deadline" and (rd_pend or wr_pend)) or (ev in ("hsctx", "idl") and hs_pend)
     key = (evn, v13, neg, hs_pend, est, closers, rd_pend, wr_pend, sc.get("early", False),
            ev if ev in ("iclose", "idl", "closeblk") else "")
@@ -449,6 +476,7 @@ def run(chk):
                   "implicit_close_pending": sum(1 for r in e2e if r["sc"]["event"] == "iclose" and r.get("hs_pend_x")),
                   "implicit_deadline_pending": sum(1 for r in e2e if r["sc"]["event"] == "idl" and r.get("hs_pend_x")),
                   "accessor_calls": sum(r.get("acc_calls", 0) for r in e2e),
+                  "post_handshake_failure_reached": sum(1 for r in e2e if r.get("ph_fsm_ended")),
                   "alerts_judged_by_key_possession": sum(1 for r in e2e if r["sc"]["event"] == "fatal" and
                                                          r.get("x_keys") and not r["sc"].get("wblock") and
                                                          not r.get("est_x") and r.get("ep_p", 0) >= 2)}
@@ -539,7 +567,11 @@ def run(chk):
              "while a Read or a Write of X runs the implicit Handshake at every handshake step (the latter is known "
              "finding K-C16-1), the state accessors called at every log point of X during the whole script, and for "
              "the fatal placements of DTLS 1.3 the judge 'X holds the read keys of the epoch the alert was sent under "
-             "=> the alert closes X'. Observables: result class of every call, decrypted close_notify/fatal records per side, "
+             "=> the alert closes X'; DTLS 1.3 (phpeer/phfatal/phclose): the peer's KeyUpdate (and, right after the "
+             "handshake, the NewSessionTicket in flight) reaches X while X's socket refuses writes (or does not take "
+             "them), X's state machine fails on the ACK; then the peer closes / sends a fatal alert / X closes (also "
+             "while the state machine is still inside the blocked write): the alert must be read, Read = EOF, Close "
+             "returns, no goroutine left. Observables: result class of every call, decrypted close_notify/fatal records per side, "
              "goroutines after teardown, synctest deadlock/leak panics. stress: concurrent Read/Write/Close/deadline "
              "setters/accessors on both endpoints. Non-trivial = an event is injected; distinct by scenario tuple "
              "(model legs: by model scenario class). thorough adds -race runs (e2e x10, stress 2000 iterations).",
